@@ -24,6 +24,18 @@ Fixpoint proj (p : nat) (xs : list sop) : list op :=
   | SAll o :: r => o :: proj p r
   end.
 
+(* ---------- C17: the product with the retention rule (runtime.rs on_proc: when a process delivers its
+   terminal event and keep_processes is off, cache.remove deletes its process row and task rows; afterwards
+   nothing of it reaches the store any more: every upsert of its tasks fails on the missing process row) ---------- *)
+Definition retire (keep : bool) (e : eng) : eng :=
+  if keep then e else if is_completed (pstate e) then with_prow (with_rows e []) None else e.
+Definition rstep (keep : bool) (s : sys) (x : sop) : sys :=
+  match x with
+  | SOp p o => upd s p (retire keep (apply_op (nth p s deng) o))
+  | SAll o => map (fun e => retire keep (apply_op e o)) s
+  end.
+Definition rrun (keep : bool) (s : sys) (xs : list sop) : sys := fold_left (rstep keep) xs s.
+
 (* ---------- C15: the call protocol ---------- *)
 (* runtime.rs return_to_act: how the calling act is closed when the child ended in state s *)
 Definition return_state (s : TaskState) : TaskState :=
